@@ -87,6 +87,9 @@ def keyFileOp (line : String) : Option String :=
   | ["bighex", h] => (unhx h).map fun b => numStr (parseBigHex b)
   | ["importkeys", h] => (unhx h).map fun b =>
       runStr (fun (o : Option (List Account)) => optStr (o.map accountsStr)) (importKeys b)
+  | ["importkeyserr", h, n] => (unhx h).bind fun b => n.toNat?.map fun k =>
+      -- a reader that fails for good after k bytes: the import ends as at the end of input there
+      runStr (fun (o : Option (List Account)) => optStr (o.map accountsStr)) (importKeys (b.take k))
   | "exportkeys" :: rest => (accountsArg rest).map fun as => hx (exportKeys as)
   | "roundtrip" :: rest => (accountsArg rest).map fun as =>
       runStr (fun (o : Option (List Account)) => boolStr (o == some as)) (importKeys (exportKeys as))
